@@ -669,8 +669,12 @@ def main(chk):
                        'selected it and be shifted/reflected on the same axis with the right sign; per-array accumulators reset; '
                        'ghost tagging; remove->wrap->create order by dominance; wrap rule; layer thickness dataflow.')
     t = M.cy(NB)
-    cls = M.find_class(t, 'CPUDomainManager')
+    cls_raw = M.find_class(t, 'CPUDomainManager')
     base = M.find_class(t, 'DomainManagerBase')
+    # private helpers a maintainer factors out of the builders are inlined again; the methods of the pinned tree keep their names
+    PINNED = ('__init__', '_add_array_to_array', '_add_to_array', '_box_wrap_periodic', '_change_velocity', '_compute_cell_size_for_binning', '_create_ghosts_mirror',
+              '_create_ghosts_periodic', '_mul_to_array', '_update_from_gpu', '_update_gpu', 'update', '_check_limits', '_remove_ghosts')
+    cls = M.inlined_class(cls_raw, keep=set(PINNED) | set(n_ for n_ in M.methods(cls_raw) if not n_.startswith('_')))
     rule_order(chk, cls, base)
     rule_builders(chk, cls)
     rule_indices_current(chk, cls)
@@ -685,6 +689,13 @@ def main(chk):
     c06.rule_tag_scans(chk, M.find_class(M.cy(c06.PA), 'ParticleArray'))
     # ghosts are made with extract_particles / append_parray: every sized operation is scaled by the stride of the same property (rule shared with C06)
     c06.rule_stride(chk, M.find_class(M.cy(c06.PA), 'ParticleArray'))
+    # the scratch ghost arrays are brought up to date with ensure_properties (type, default and stride of every copied property: model run shared with C06), and every
+    # append re-aligns the array (images keep their tags and the real particles stay in front only if the index array of align_particles is a permutation: rule shared with C16)
+    c06.rule_ensure_model(chk)
+    spec16 = importlib.util.spec_from_file_location('c16mod', os.path.join(os.path.dirname(os.path.abspath(__file__)), 'c16.py'))
+    c16 = importlib.util.module_from_spec(spec16)
+    spec16.loader.exec_module(c16)
+    c16.rule_alignment(chk)
     chk.unit('functions', ['CPUDomainManager.update', '_create_ghosts_periodic', '_create_ghosts_mirror', '_box_wrap_periodic',
                            '_compute_cell_size_for_binning', 'DomainManagerBase._remove_ghosts', 'DomainManagerBase.__init__'])
     chk.assume('ParticleArray.extract_particles/append_parray copy whole particles (C06); carray.reset() empties a list')
